@@ -21,6 +21,8 @@ func main() {
 		os.Exit(cmdPrep(os.Args[2]))
 	case "parse":
 		os.Exit(cmdParse(os.Args[2]))
+	case "builtins":
+		os.Exit(cmdBuiltins(os.Args[2]))
 	default:
 		fmt.Fprintln(os.Stderr, "unknown command", os.Args[1])
 		os.Exit(2)
